@@ -2,7 +2,7 @@
 From Coq Require Import String.
 From Coq Require Import List NArith ZArith Bool.
 From Dials Require Export Base.Outcome Base.Runes Reflect.Ty Reflect.Ptrify Stack.Overlay
-  Text.ParseText Sources.Flatten Sources.Decoders Sources.DecodersSpec.
+  Text.ParseText Sources.Flatten Sources.TimeText Sources.Decoders Sources.DecodersSpec.
 From Dials Require Import Check.C11Check Check.C12Check.
 Import ListNotations.
 Open Scope list_scope.
@@ -37,10 +37,10 @@ Definition one (w : bool) (f : format) (pfs : fields) (d : doc) (impl : outcome 
        end.
 
 (* does the type have a TextUnmarshaler leaf?  go-toml (like yaml.v2) hands the
-   text of ANY scalar to UnmarshalText *)
+   text of ANY scalar to UnmarshalText (not for time.Time, which it reads itself) *)
 Fixpoint has_textu_ty (t : ty) {struct t} : bool :=
   match t with
-  | TTextU _ _ => true
+  | TTextU _ _ => negb (is_time t)
   | TPtr t' => has_textu_ty t'
   | TSlice e n => netip e n || has_textu_ty e
   | TArray _ e => has_textu_ty e
